@@ -22,7 +22,7 @@ import (
 )
 
 type FSrc struct {
-	Kind  string   `json:"kind"`  // conv | pipe | array | copy (a convert reader copied in two: two members) | copy1 (copied in two, only the first child is merged and read; the second is closed unread afterwards)
+	Kind  string   `json:"kind"`  // conv | convp (a convert reader over a pipe: "item" elements are error items of the SOURCE, the convert function decides val / skip / boom per chunk — what the key filters and type converters of a graph are) | pipe | array | copy (a convert reader copied in two: two members) | copy1 (copied in two, only the first child is merged and read; the second is closed unread afterwards)
 	Elems []string `json:"elems"` // val | item | skip | boom
 }
 
@@ -109,6 +109,36 @@ func convSource(j int, elems []string, prog *int32) *schema.StreamReader[int] {
 	})
 }
 
+// convPipeSource: the same elements, but the error items come from the source (a pipe) and the convert
+// function sees the chunks only: it skips (ErrNoValue), panics or converts by the chunk's index.
+func convPipeSource(j int, elems []string, prog *int32) *schema.StreamReader[int] {
+	sr, sw := schema.Pipe[int](1)
+	go func() {
+		defer sw.Close()
+		for k, e := range elems {
+			var closed bool
+			if e == "item" {
+				closed = sw.Send(0, &custom0{fid(j, k)})
+			} else {
+				closed = sw.Send(k, nil)
+			}
+			if closed {
+				return
+			}
+		}
+	}()
+	return schema.StreamReaderWithConvert(sr, func(k int) (int, error) {
+		atomic.AddInt32(prog, 1)
+		switch elems[k] {
+		case "skip":
+			return 0, schema.ErrNoValue
+		case "boom":
+			boom(fid(j, k))
+		}
+		return fid(j, k), nil
+	})
+}
+
 // members builds the readers handed to MergeStreamReaders and, per member, the source elements
 // with the member index used for its ids.
 func (f *FwdSpec) members(prog *fwdProgress) ([]*schema.StreamReader[int], []*schema.StreamReader[int]) {
@@ -120,6 +150,9 @@ func (f *FwdSpec) members(prog *fwdProgress) ([]*schema.StreamReader[int], []*sc
 		switch s.Kind {
 		case "conv":
 			srs = append(srs, convSource(j, s.Elems, prog.counter()))
+			elems, ids = append(elems, s.Elems), append(ids, j)
+		case "convp":
+			srs = append(srs, convPipeSource(j, s.Elems, prog.counter()))
 			elems, ids = append(elems, s.Elems), append(ids, j)
 		case "copy":
 			cs := convSource(j, s.Elems, prog.counter()).Copy(2)
@@ -422,7 +455,7 @@ func (g *gen) fwdCase() *Case {
 		f.Slow = 1 + g.weighted(60, 40)
 	}
 	for len(f.Srcs) < m {
-		s := FSrc{Kind: []string{"conv", "pipe", "array", "copy", "copy1"}[g.weighted(45, 15, 8, 12, 20)]}
+		s := FSrc{Kind: []string{"conv", "convp", "pipe", "array", "copy", "copy1"}[g.weighted(33, 12, 15, 8, 12, 20)]}
 		n := r.Range(0, 6)
 		long := f.Slow > 0 && r.Chance(70, 100)
 		if long {
@@ -431,7 +464,7 @@ func (g *gen) fwdCase() *Case {
 		for k := 0; k < n; k++ {
 			var e string
 			switch s.Kind {
-			case "conv", "copy1", "copy": // (every copy of a panicking source delivers the panic as an error item: F-C13d)
+			case "conv", "convp", "copy1", "copy": // (every copy of a panicking source delivers the panic as an error item: F-C13d)
 				if long {
 					e = []string{"val", "item", "skip", "boom"}[g.weighted(70, 12, 8, 10)]
 					break
